@@ -825,6 +825,26 @@ func (c *SpecCtx) evalCall(x *ast.CallExpr) *SV {
 			return c.eval(x.Args[0])
 		}
 		return c.inState(c.old).eval(x.Args[0])
+	case "atLock", "atUnlock":
+		// atLock(e[, k]) / atUnlock(e[, k]): e in the state right after the k-th
+		// last monitor Lock / right before the k-th last monitor Unlock on this
+		// path (k = 0: the last one).  Without such an operation: the current state.
+		snaps := c.st.lockSnaps
+		if id.Name == "atUnlock" {
+			snaps = c.st.unlockSnaps
+		}
+		k := 0
+		if len(x.Args) > 1 {
+			kv := c.eval(x.Args[1])
+			if kv.Const == nil {
+				c.fail("%s: index must be a constant", id.Name)
+			}
+			k = int(kv.Const.Int64())
+		}
+		if len(snaps)-1-k < 0 {
+			return c.eval(x.Args[0])
+		}
+		return c.inState(snaps[len(snaps)-1-k]).eval(x.Args[0])
 	case "implies":
 		return boolSV(Implies(c.EvalBool(x.Args[0]), c.EvalBool(x.Args[1])))
 	case "ite":
